@@ -1016,7 +1016,6 @@ func ruleENG16(c *Ctx) {
 	c.OK("engine package / pointer results of interface calls examined", "engine/GruleEngine.go", fmt.Sprintf("%d functions, %d such results", len(fns), nSites))
 }
 
-
 // dominatingIfBlock: the block whose If leads straight to b (b has one predecessor ending in an If), else b itself.
 func dominatingIfBlock(b *ssa.BasicBlock) *ssa.BasicBlock {
 	if len(b.Preds) == 1 {
